@@ -13,6 +13,8 @@ HARNESSES += _load("blk_common").sds_harnesses(("SEL_HEADER",))
 HARNESSES += _load("blk_common").alac_stage_harnesses(("SEL_WRITE",))
 # MS ADPCM write staging (reads exactly the items the caller supplied)
 HARNESSES += _load("blk_common").ms_stage_harnesses()
+# staging wrappers of the 16-bit block codecs (IMA, MS, GSM 06.10, G.72x, NMS)
+HARNESSES += _load("blk_common").stage_generic_harnesses(("SEL_WRITE",))
 # XI DPCM delta kernels: the predictor state carried between calls
 HARNESSES += [h for h in _load("blk_common").xi_split_harnesses() if h.defines["ENC"] == 1]
 
